@@ -19,7 +19,7 @@ def upd(kind, ver):
         return {"op": "incr", "rules": rules_v(ver), "_ver": ver}
     if kind == "incr1":         # replaces one rule only: the version after it mixes body tags by design
         return {"op": "incr", "rules": rules_v(ver, names=("pb",), sals={"pb": 6}), "_ver": None}
-    return {"op": "remove", "names": {"remove": ["pc"], "remove-first": ["pa"], "remove-mid": ["pb"], "remove-two": ["pa", "pc"]}[kind], "_ver": None}
+    return {"op": "remove", "names": {"remove": ["pc"], "remove-first": ["pa"], "remove-mid": ["pb"], "remove-two": ["pa", "pc"], "remove-all": ["pa", "pb", "pc"]}[kind], "_ver": None}
 
 
 MODEL_ENTRY = {1: "Execute", 2: "ExecuteConcurrent", 3: "ExecuteMixModel", 4: "ExecuteInverseMixModel"}
@@ -50,7 +50,7 @@ def make_scenarios(rng, tier):
     scs = []
     sid = 1
     for (method, kw) in ENTRY_SHAPES:
-        for kind in ("full", "incr", "remove", "remove-first", "remove-mid", "remove-two", "incr1"):
+        for kind in ("full", "incr", "remove", "remove-first", "remove-mid", "remove-two", "remove-all", "incr1"):
             for where in ("inside", "script"):
                 for (mn, mx) in ([(1, 2)] if tier == "quick" else [(1, 2), (2, 3)]):
                     sc = {"id": sid, "min": mn, "max": mx, "model": 1, "rules": rules_v(1), "steps": []}
@@ -73,7 +73,7 @@ def make_scenarios(rng, tier):
                     for q in later:
                         sc["steps"].append({"op": "release", "id": q})
                     # a second update and another round
-                    u2 = upd("incr" if kind not in ("incr", "incr1") else "full", 3)
+                    u2 = upd("incr1" if kind == "remove-all" else ("incr" if kind not in ("incr", "incr1") else "full"), 3)
                     sc["steps"].append(dict(u2))
                     for k in range(mx):
                         sc["steps"].append(req_step(r0 + 20 + k, rng.choice(["Execute", "ExecuteConcurrent", "ExecuteMixModel"]), [], hold_at="*", wait_ms=-200))
@@ -176,7 +176,7 @@ def main(run):
                 extra.append((sc["id"], 36))
             got = coq_list(["(%s, %s)" % (coq_str(n), coq_z(v // 1000000)) for n, v in sorted(r["result"].items()) if v >= 0])
             sets.append("(mkES %s %s %s %s %s %s)" % (coq_nat(sc["id"]), coq_nat(nid(sc["id"], r["id"])), coq_shape(steps_by_id[r["id"]], sc["model"]), got, coq_nat(r["begin_seq"]), coq_nat(r["end_seq"])))
-            if sc["_first_kind"] == "incr1":
+            if sc["_first_kind"] in ("incr1", "remove-all"):
                 continue        # the version after a one-rule incremental update mixes body tags by design: only the set check applies
             vers = [v // 1000000 for v in r["result"].values() if v >= 0]
             execs.append("mkEO %s %s %s %s %s" % (coq_nat(sc["id"]), coq_nat(nid(sc["id"], r["id"])), coq_list([coq_nat(v) for v in vers]), coq_nat(r["begin_seq"]), coq_nat(r["end_seq"])))
